@@ -20,3 +20,15 @@ func TestKnownF12FormatAboveLeadingDigit(t *testing.T) {
 		t.Errorf("Text('f', 0) of 0.6 = %s, want 1", got)
 	}
 }
+
+// F19 (C05): sqrtInverse computes its working precision as z.prec + 2 and doubles t.prec in
+// uint32. For a receiver precision of MaxPrec or MaxPrec-1 the target wraps to 0 or 1, the Newton
+// loop does not run at all, and Sqrt returns the 17-digit initial estimate times x, reported as
+// Exact. (Takes ~20 s per case: the final multiplication validates a MaxPrec result.)
+func TestKnownF19SqrtMaxPrec(t *testing.T) {
+	z := new(Decimal).SetPrec(MaxPrec)
+	z.Sqrt(new(Decimal).SetInt64(2))
+	if z.Acc() == Exact || z.MinPrec() < 100 {
+		t.Errorf("Sqrt(2) at MaxPrec = %s with accuracy %v: %d digits", z.Text('g', 40), z.Acc(), z.MinPrec())
+	}
+}
